@@ -503,7 +503,7 @@ def _islice_spec(n: int, start, stop, step):
             nxt = stop
 
 
-def r05_5(ctx) -> None:
+def r05_5(ctx, consumption: bool = True) -> None:
     """islice as a table: for every (start, stop, step) in a small cube and sources of 0..6 items
     the items yielded and the number of items pulled equal itertools.islice's (the statement:
     "stops without touching item stop", "never consumes more than its counterpart")."""
@@ -529,6 +529,9 @@ def r05_5(ctx) -> None:
                 ys = tuple(e[1][1] if isinstance(e[1], tuple) and e[1][:1] == ("item",) else e[1] for e in tr if e[0] == "yield")
                 pulls = sum(1 for e in tr if e[0] == "pull")
                 got.add((ys, pulls, oc.terminal.kind))
+            if not consumption:
+                # (C01 speaks of the items only; how many items are pulled is C05's / C06's / C08's business)
+                got = {(ys, want_c, kind_) for (ys, _pulls, kind_) in got}
             ok = got == {(tuple(want_y), want_c, "exit")}
             if not ok:
                 bad += 1
